@@ -302,7 +302,10 @@ def draw_op(rng, name, f, kind, curves, azimuths, fault_rate=0.0):
         return {"op": name, "range": draw_range(rng, f), "rnum": rng.choice(["float", "float", "float", "np", "int", "npint", "np32"]),
                 "rtype": rng.choice(["tuple", "tuple", "list"]), "kwargs": draw_kwargs(rng),
                 # the caller keeps ONE options dict, edits it in place and hands it in again (a parameter sweep)
-                "kw_alias": rng.random() < 0.3}
+                "kw_alias": rng.random() < 0.3,
+                # fault injection: the k-th inner peak search of the update fails (an allocation failure, say); the caller
+                # then simply issues the same call again
+                "fault": {"kind": "raise_in_search", "at": rng.randrange(0, 14)} if rng.random() < 0.07 else None}
     if name == "fdwra":
         return {"op": name, "n": rng.choice([0.5, 1.0, 1.5, 2.0, 2, 2.5, 3.0, 3, 1]),
                 "max_iterations": rng.choice([1, 1, 2, 3, 5, 50, 50]),
@@ -516,6 +519,35 @@ def curve_peak(st, a, j):
     return st.peak_cache[key]
 
 
+class InjectedSearchFailure(MemoryError):
+    pass
+
+
+class _SearchFault:
+    """While installed, the k-th call of scipy's find_peaks made by hvsrpy.hvsr_curve fails (counted across the objects of the run)."""
+
+    def __init__(self, at, ctx):
+        import hvsrpy.hvsr_curve as HC
+        self.HC, self.at, self.n, self.fired, self.ctx = HC, at, 0, False, ctx
+
+    def __enter__(self):
+        self.orig = self.HC.find_peaks
+
+        def wrapper(*a, **k):
+            self.n += 1
+            if self.n - 1 == self.at and not self.fired:
+                self.fired = True
+                self.ctx.fault("raise_in_peak_search")
+                raise InjectedSearchFailure("injected failure in the peak search")
+            return self.orig(*a, **k)
+        self.HC.find_peaks = wrapper
+        return self
+
+    def __exit__(self, *exc):
+        self.HC.find_peaks = self.orig
+        return False
+
+
 def plain_kwargs(k):
     return k is None or k == {}
 
@@ -654,11 +686,23 @@ def apply_op(ctx, st, op, prop):
             alias.clear()
             alias.update(copy.deepcopy(op["kwargs"] or {}))
             ctx.probe("caller_reuses_kwargs_dict")
-        for key, obj in st.objs.items():
-            targets = obj if key == "curves" else [obj]
-            for t in targets:
-                t.update_peaks_bounded(search_range_in_hz=r,
-                                       find_peaks_kwargs=alias if alias is not None else copy.deepcopy(op["kwargs"]))
+        fault = op.get("fault") if prop in ("C08", "C05", "C11", "C06") else None
+        for attempt in ((fault, None) if fault else (None,)):
+            inj = _SearchFault(attempt["at"], ctx) if attempt else None
+            for key, obj in st.objs.items():
+                targets = obj if key == "curves" else [obj]
+                for t in targets:
+                    try:
+                        if inj:
+                            inj.__enter__()
+                        try:
+                            t.update_peaks_bounded(search_range_in_hz=r,
+                                                   find_peaks_kwargs=alias if alias is not None else copy.deepcopy(op["kwargs"]))
+                        finally:
+                            if inj:
+                                inj.__exit__()
+                    except InjectedSearchFailure:
+                        info["exc"] = "InjectedSearchFailure"      # the caller repeats the call below, faults have stopped
         st.range_changed = tuple(op["range"]) != tuple(st.cur_range)
         st.cur_range, st.cur_kwargs = tuple(op["range"]), copy.deepcopy(op["kwargs"])
         ctx.state_changes += 1
